@@ -441,7 +441,7 @@ def run(ctx):
     budget = 80 if not thorough else 540
     n_deep = 3 if not thorough else 24
     for k in range(n_cfg):
-        if ctx.time_left(budget) < 0:
+        if k >= n_deep + 2 and ctx.time_left(budget) < 0:      # the directed families at the start always run (load independent)
             break
         deep = k < n_deep
         if deep:
@@ -458,6 +458,12 @@ def run(ctx):
             ctx.count("family_deep_dim3")
         else:
             cfg = c13.gen_cfg(ctx.rng, thorough)
+            # directed, right after the deep family and outside the budget: k = n_deep an extend-split run with reevaluate_at_end
+            # (every leg ends with evaluate_final_combi; continue + container resume), k = n_deep + 1 a dimension-wise run on a
+            # global B-spline grid built with grid_surplusses=<that grid> (save / restore / continue)
+            want = "extend_split" if k == n_deep else ("dimwise" if k == n_deep + 1 else None)
+            while want is not None and not (cfg["strategy"] == want and cfg["dim"] == 2):
+                cfg = c13.gen_cfg(ctx.rng, thorough, strategy=want)
             cfg.pop("grid", None)          # C13's extra families (non-nested grids, recalculate_frequently) are not part of
             cfg.pop("recalc", None)        # the resume protocol
             cfg.pop("eval_points", None)
@@ -486,6 +492,14 @@ def run(ctx):
                 cfg.pop("ctor", None)
             ctx.count("surplus_grid_" + ("uq_weighted" if cfg.get("operation") == "uq" else cfg.get("surplus_grid", "default")))
         cfg["reeval"] = ctx.rng.random() < 0.35
+        if k == n_deep:
+            cfg["reeval"] = True
+            ctx.count("family_reevaluate_at_end_extend_split")
+        elif k == n_deep + 1:
+            for key in ("operation", "ref_route", "uq_moments"):
+                cfg.pop(key, None)
+            cfg.update(grid="global_bspline", p=3, surplus_grid="operation")
+            ctx.count("family_surplus_grid_is_operation_grid")
         ctx.count("reevaluate_at_end_%s" % cfg["reeval"])
         cap = (480 if deep else ctx.rng.choice([60, 90, 130] if cfg["dim"] == 2 else [120, 200]))
         sa, eo, f = build(cfg)
